@@ -163,14 +163,20 @@ func runC05(c *run.Ctx, s *kit.Summary) {
 		}
 		var sb strings.Builder
 		fmt.Fprintf(&sb, "c05.hits %d", len(results))
+		seqOdd := false
 		for j, res := range results {
 			total++
 			s.Case(fmt.Sprint(i, ":", res.Seq), cs.Workers >= 2)
 			h := obs[res.Seq]
 			ts := res.Timestamp.Sub(t0)
-			if res.Seq != uint64(j) {
-				viol("seq_gap_or_duplicate", "sequence numbers are not 0..n-1", fmt.Sprint(j), fmt.Sprint(res.Seq))
-				break
+			if res.Seq != uint64(j) && !seqOdd {
+				// "exactly 0..n-1" is C02's clause; this property compares results pairwise by sequence number. The run
+				// is still judged below (pairs with different sequence numbers); the oddity itself is a broken tie.
+				seqOdd = true
+				s.Diverge("sibling-property:seq_gap_or_duplicate", fmt.Sprint(cs), fmt.Sprint("position ", j, " has sequence number ", res.Seq), "sequence numbers 0..n-1 (C02)")
+			}
+			if j > 0 && res.Seq == results[j-1].Seq {
+				continue // two results with the same number: no smaller one, nothing to compare
 			}
 			if j > 0 && res.Timestamp.Before(results[j-1].Timestamp) {
 				viol("seq_order_disagrees_with_timestamp_order", "a result with a larger sequence number has an earlier timestamp",
